@@ -188,7 +188,7 @@ def go_build(pkg="internal", race=False, gocmd="go"):
     return {"ok": rc == 0, "log": log[-4000:], "bin": out, "wall_s": dt}
 
 
-def run_harness(binp, tests, outdir, seed, tier, timeout=1500, extra_env=None):
+def run_harness(binp, tests, outdir, seed, tier, timeout=1500, extra_env=None, cwd=None):
     os.makedirs(outdir, exist_ok=True)
     e = goenv()
     e.update(VERIF_OUT=outdir, VERIF_SEED=str(seed), VERIF_TIER=tier)
@@ -196,7 +196,7 @@ def run_harness(binp, tests, outdir, seed, tier, timeout=1500, extra_env=None):
         e.update(extra_env)
     pat = "^(" + "|".join(tests) + ")$"
     rc, log, dt = sh([binp, "-test.run", pat, "-test.count=1", "-test.timeout", "%ds" % timeout, "-test.v"],
-                     cwd=os.path.join(REPO, "internal"), env=e, timeout=timeout + 60)
+                     cwd=cwd or os.path.join(REPO, "internal"), env=e, timeout=timeout + 60)
     return {"ok": rc == 0, "log": log[-6000:], "wall_s": dt}
 
 
@@ -405,9 +405,19 @@ def run_check(pid, tier, seed, replay=None):
         if replay:
             shutil.copy(replay, os.path.join(outdir, os.path.basename(replay)))
         else:
-            hres = run_harness(gb["bin"], spec["go_tests"], outdir, seed, tier, timeout=spec.get("timeout", {}).get(tier, 900))
-            if not hres["ok"]:
-                broken.append("harness run failed: " + hres["log"][-1500:])
+            if spec["go_tests"]:
+                hres = run_harness(gb["bin"], spec["go_tests"], outdir, seed, tier, timeout=spec.get("timeout", {}).get(tier, 900))
+                if not hres["ok"]:
+                    broken.append("harness run failed: " + hres["log"][-1500:])
+            if spec.get("go_tests_root"):
+                with Lock():
+                    gbr = go_build(".")
+                if not gbr["ok"]:
+                    broken.append("root-package harness does not build against /repo: " + gbr["log"][-800:])
+                else:
+                    hr2 = run_harness(gbr["bin"], spec["go_tests_root"], outdir, seed, tier, timeout=spec.get("timeout", {}).get(tier, 900), cwd=REPO)
+                    if not hr2["ok"]:
+                        broken.append("root-package harness run failed: " + hr2["log"][-1500:])
         for tr in sorted(glob.glob(os.path.join(outdir, "*.trace"))):
             name = os.path.basename(tr)[:-6]
             sc = scan_trace(tr)
